@@ -46,13 +46,18 @@ NonceChecks(e) == Flag(e.res = "ok" /\ e.same /\ e.opens, "C19_counter_nonce_lay
 \* C08: size formula; cleartext fields equal for two identity pairs; no identity in the file
 ClearChecks(e) ==
   Flag(e.ok /\ e.framing_ok, "C08_file_is_not_header_plus_records")
-  \cup Flag(e.ok => (e.flen = e.H + 32 * e.nrec + e.plen /\ e.flen_b = e.flen), "C08_size_differs_from_formula")
+  \* (the second file of the pair has a record count of its own where the input came over a pipe; otherwise it equals the first)
+  \cup Flag(e.ok => (e.flen = e.H + 32 * e.nrec + e.plen
+                     /\ e.flen_b = e.H + 32 * (IF "nrec_b" \in DOMAIN e THEN e.nrec_b ELSE e.nrec) + e.plen
+                     /\ ("nrec_b" \in DOMAIN e \/ e.flen_b = e.flen)), "C08_size_differs_from_formula")
   \cup Flag(e.ok => e.clear_equal, "C08_cleartext_depends_on_identities")
   \cup Flag(e.ok => ~e.identity_found, "C08_identity_appears_in_file")
 
 Checks(e) ==
   CASE e.ev = "hs"     -> HsChecks(e) \cup HsFormat(e)
     [] e.ev = "clear"  -> ClearChecks(e)
+    \* C01 over thousands of random key pairs in one event
+    [] e.ev = "ksweep" -> Flag(e.failed = 0 /\ e.panics = 0, "C01_round_trip_fails_for_some_key_pairs")
     [] e.ev = "golden" -> GoldenChecks(e)
     [] e.ev = "hh"     -> HhChecks(e)
     [] e.ev = "nonce"  -> NonceChecks(e)
